@@ -240,7 +240,7 @@ pub fn gen_fail(seed: u64, n: usize, out: &mut String) {
             let kspec = match r.below(4) { 0 => format!("a{}", r.below(60)), 1 => "p1000".to_string(), _ => format!("p{}", r.below(1000)) };
             // half of the cases write the whole stream, the other half one component directly to the failing sink
             let mode = if q % 2 == 0 { mode0.to_string() } else {
-                match r.below(6) { 0 => format!("f{}", r.below(4)), 1 => format!("h{}", r.below(4)),
+                match r.below(7) { 6 => format!("x{}", 1 + r.below(3)), 0 => format!("f{}", r.below(4)), 1 => format!("h{}", r.below(4)),
                                    2 | 3 => format!("u{}.{}", r.below(4), r.below(8)), _ => format!("r{}.{}", r.below(4), r.below(8)) } };
             writeln!(out, "FAIL f{} {} {} {} {} {} {} {} {}", i, kspec, mode, c.encode(), rate, ch, bps, bs, samples).unwrap();
             i += 1;
@@ -273,7 +273,7 @@ fn fail_one<T: BitRepr>(id: &str, comp: &T, kspec: &str) -> String {
     format!("{} {} k={} total={} accepted={} calls={:016x} bits={} ref={} retry={}", id, verdict, k, total, sink.ops.len(), h, sink.bits.len(), reference, retry)
 }
 
-/// mode: s | m (whole stream, single / multi thread) | f<i> frame i | h<i> header of frame i | u<i>.<j> subframe j of
+/// mode: s | m (whole stream, single / multi thread) | x<k> whole stream with k further metadata blocks | f<i> frame i | h<i> header of frame i | u<i>.<j> subframe j of
 /// frame i | r<i>.<j> the residual of that subframe (the subframe itself when it has none); indices are taken modulo
 /// the number of frames / subframes.  Components are written DIRECTLY to the failing user sink.
 pub fn run_fail(id: &str, rest: &str) -> String {
@@ -281,8 +281,18 @@ pub fn run_fail(id: &str, rest: &str) -> String {
     let (kspec, mode) = (t[0], t[1]);
     let mut c = parse(t[2]);
     if mode == "m" { c.cfg.mt = true; c.cfg.workers = Some(2); } else if mode != "s" { c.cfg.mt = false; }
-    let stream = match encode(&c) { Ok(s) => s, Err(e) => return format!("{} enc-{}", id, e) };
+    let mut stream = match encode(&c) { Ok(s) => s, Err(e) => return format!("{} enc-{}", id, e) };
     if mode == "s" || mode == "m" { return fail_one(id, &stream, kspec); }
+    if let Some(k) = mode.strip_prefix('x') {
+        // the whole stream with k further (unknown-type) metadata blocks between STREAMINFO and the frames
+        let k: usize = k.parse().unwrap_or(1);
+        for b in 0..k {
+            let tag = 2 + b; let len = 3 + 5 * b;
+            let data: Vec<u8> = (0..len).map(|j| ((tag * 31 + j * 7) % 256) as u8).collect();
+            stream.add_metadata_block(flacenc::component::MetadataBlockData::new_unknown(tag as u8, &data).unwrap());
+        }
+        return fail_one(id, &stream, kspec);
+    }
     let (kind, idx) = mode.split_at(1);
     let mut it = idx.split('.');
     let i: usize = it.next().unwrap_or("0").parse().unwrap_or(0);
